@@ -558,6 +558,82 @@ fn exec_ticked(sc: &Scenario) -> Report {
     finish_report(res, out)
 }
 
+/// blocked: a reset call has to wait for the bar (another thread holds it inside `suspend()` for a
+/// while); what counts as "before the reset" ends when the reset takes effect, so steady progress
+/// afterwards is reported with its true rate
+fn exec_blocked(sc: &Scenario) -> Report {
+    let sc2 = sc.clone();
+    let (res, out) = World::run(Config::sequential(sc.seed), move || {
+        let sc = sc2;
+        let mut r = Report::default();
+        let pb = ProgressBar::with_draw_target(Some(u64::MAX), ProgressDrawTarget::hidden());
+        // some history at another rate
+        sched::advance_quiet(1_000_000_000);
+        pb.set_position(sc.c("pre_pos"));
+        pb.tick();
+        sched::advance_quiet(500_000_000);
+        pb.set_position(sc.c("pre_pos") * 2);
+        pb.tick();
+        let hold = sc.c("hold_ns").max(2_000_000);
+        let pb2 = pb.clone();
+        let holder = verif_simrt::thread::spawn_named("holder", move || {
+            pb2.suspend(|| sched::sleep(hold));
+        });
+        // (the holder is inside suspend() by now: this thread slept, so the other one ran)
+        sched::sleep(hold / 2);
+        let kind = sc.c("reset_kind") % 3;
+        let rr = call(|| match kind {
+            0 => pb.reset_eta(),
+            1 => pb.reset(),
+            _ => pb.reset_elapsed(),
+        });
+        if let Err(p) = rr {
+            r.violate("C09.no_panic", format!("the reset call panicked: {p}"));
+            return r;
+        }
+        let _ = holder.join();
+        if sched::clock_ns() < 1_000_000_000_000_000_000 + 1_500_000_000 + hold {
+            r.harness_error = Some("the reset call did not wait for the holder".into());
+            return r;
+        }
+        let k = sc.c("steps_per_ms").max(1);
+        let rate = k as f64 * 1000.0;
+        let p0 = pb.position();
+        let mut el_ms = 0u64;
+        let ops = sc.threads.first().cloned().unwrap_or_default();
+        for (i, op) in ops.iter().enumerate() {
+            let ms = op.n0().max(1);
+            sched::advance_quiet(ms * 1_000_000);
+            el_ms += ms;
+            let p = p0 + el_ms * k;
+            if let Err(e) = call(|| {
+                pb.set_position(p);
+                pb.tick();
+            }) {
+                r.violate("C09.no_panic", format!("op#{i} panicked: {e}"));
+                break;
+            }
+            let ps = pb.per_sec();
+            let rel = ((ps - rate) / rate).abs();
+            if !(rel <= 1e-7) {
+                r.violate(
+                    "C09.forgetful",
+                    format!(
+                        "op#{i}: {} had to wait {} ns for the bar (held by another thread inside suspend()); progress is exactly {rate} steps/s since it took effect but per_sec() = {ps} (relative error {rel:e}): time before the reset counts",
+                        ["reset_eta()", "reset()", "reset_elapsed()"][kind as usize],
+                        hold - hold / 2
+                    ),
+                );
+                break;
+            }
+            r.probe("blocked_reset_checks");
+        }
+        r.nontrivial = ops.len() >= 2;
+        r
+    });
+    finish_report(res, out)
+}
+
 fn exec_twins(sc: &Scenario) -> Report {
     let sc2 = sc.clone();
     let (res, out) = World::run(Config::sequential(sc.seed), move || {
@@ -635,12 +711,26 @@ fn exec_twins(sc: &Scenario) -> Report {
                     // behind the progress it has made
                     let _ = pb.clone().with_position(p_sync / 2);
                 }
+                _ if sc.c("seek_via") == 2 => {
+                    // backwards by dec(): steps taken back
+                    pb.dec(p_sync - p_sync / 2);
+                    pb.tick();
+                }
+                _ if sc.c("seek_via") == 3 => {
+                    // backwards through the io adaptor
+                    use std::io::Seek;
+                    let _ = pb.wrap_read(std::io::Cursor::new(Vec::<u8>::new())).seek(std::io::SeekFrom::Start(p_sync / 2));
+                    pb.tick();
+                }
                 _ => {
                     // backwards seek
                     pb.set_position(p_sync / 2);
                     pb.tick();
                 }
             }
+        }
+        if forget % 3 == 2 && sc.c("seek_via") >= 2 {
+            r.probe("forget_rewind_dec_or_adaptor");
         }
         if forget % 3 == 2 && sc.c("seek_via") == 1 {
             r.probe("forget_rewind_with_position");
@@ -742,7 +832,7 @@ impl Check for C09 {
         "C09"
     }
     fn rule_text(&self) -> String {
-        "laws: 1..60 updates (gap, position; one gap in eight passes inside the closure of suspend()) with gaps log-uniform 1 ms..3 days plus exact cadences, positions up to 1e15, reset_eta/reset_elapsed/reset/backwards seeks/set_length/finish/abandon at random places, bars built with_elapsed, queries at update instants and during stalls; checked: per_sec finite and >= 0 and eta/duration well formed at every instant strictly after creation or the last reset, per_sec <= largest sample rate since the last reset (an abandoned bar: <= the largest sample rate since creation unless the bar was told to forget), successive stall queries non-increasing, eta == remaining/per_sec (0 when finished / unknown length / no progress), duration == elapsed + eta, all at one frozen instant. steady (in one run out of three the length is kept 1..3000 steps ahead of the position, also far above 2^53, and eta == remaining/per_sec is checked there as well): every update lies exactly on p = p0 + r (t - t0) (k steps per ms with whole-ms gaps, or one step per m ms with gaps multiple of m; in one run out of four the unit is the microsecond, so that updates come closer together than 1 ms) with irregular cadence => |per_sec - r| <= 1e-7 r at every update; the position reaches the bar by set_position + tick, by update(closure), by inc + tick, or by a seek through the io adaptor (SeekFrom::Start / Current / End in turn over an offset-only stream) + tick, and one gap in eight passes inside the closure of suspend(). twins: two bars with different pre-histories are synchronised (same position at the same instant: recorded by both estimators; or - before reset() - not at all; or - before reset_eta - reached by one of them through a position update its estimator never saw because the position rate limiter skipped the tick), forget (reset_eta / reset / backwards seek, one seek in three through `with_position` on a clone) and get the same post-history => bit-identical per_sec and eta. ticked: a bar (hidden or visible) under a steady ticker of 1/10/50 ms is moved along a line by set_position only (with a ticker installed position calls do not feed the estimator: the ticker does); after 20 ticks and 20 steps per_sec must lie within 50 % of the true rate. The oracle states laws only: a different estimator that satisfies them passes. Non-trivial: laws = >= 2 recorded samples; steady = >= 2 updates; twins = >= 2 post operations. Distinct = distinct scenario hash.".into()
+        "laws: 1..60 updates (gap, position; one gap in eight passes inside the closure of suspend()) with gaps log-uniform 1 ms..3 days plus exact cadences, positions up to 1e15, reset_eta/reset_elapsed/reset/backwards seeks/set_length/finish/abandon at random places, bars built with_elapsed, queries at update instants and during stalls; checked: per_sec finite and >= 0 and eta/duration well formed at every instant strictly after creation or the last reset, per_sec <= largest sample rate since the last reset (an abandoned bar: <= the largest sample rate since creation unless the bar was told to forget), successive stall queries non-increasing, eta == remaining/per_sec (0 when finished / unknown length / no progress), duration == elapsed + eta, all at one frozen instant. steady (in one run out of three the length is kept 1..3000 steps ahead of the position, also far above 2^53, and eta == remaining/per_sec is checked there as well): every update lies exactly on p = p0 + r (t - t0) (k steps per ms with whole-ms gaps, or one step per m ms with gaps multiple of m; in one run out of four the unit is the microsecond, so that updates come closer together than 1 ms) with irregular cadence => |per_sec - r| <= 1e-7 r at every update; the position reaches the bar by set_position + tick, by update(closure), by inc + tick, or by a seek through the io adaptor (SeekFrom::Start / Current / End in turn over an offset-only stream) + tick, and one gap in eight passes inside the closure of suspend(). twins: two bars with different pre-histories are synchronised (same position at the same instant: recorded by both estimators; or - before reset() - not at all; or - before reset_eta - reached by one of them through a position update its estimator never saw because the position rate limiter skipped the tick), forget (reset_eta / reset / backwards seek, the seek by set_position, through `with_position` on a clone, by dec() or through the io adaptor) and get the same post-history => bit-identical per_sec and eta. blocked (one run in twenty): reset_eta()/reset()/reset_elapsed() has to wait 1 ms .. 5 min for the bar, which another simulated thread holds inside suspend(); steady progress after the reset took effect must be reported with its true rate (1e-7). ticked: a bar (hidden or visible) under a steady ticker of 1/10/50 ms is moved along a line by set_position only (with a ticker installed position calls do not feed the estimator: the ticker does); after 20 ticks and 20 steps per_sec must lie within 50 % of the true rate. The oracle states laws only: a different estimator that satisfies them passes. Non-trivial: laws = >= 2 recorded samples; steady = >= 2 updates; twins = >= 2 post operations. Distinct = distinct scenario hash.".into()
     }
     fn assumptions(&self) -> Vec<String> {
         vec![
@@ -785,6 +875,19 @@ impl Check for C09 {
             sc.set("per_step", *rng.pick(&[1, 7, 1000]));
             sc.set("steps", rng.range(30, 120));
             sc.threads = vec![vec![]];
+            return sc;
+        }
+        if rng.chance(1, 20) {
+            let mut sc = Scenario::new("C09", "blocked", rng.next_u64());
+            sc.set("pre_pos", *rng.pick(&[1, 500, 1_000_000]));
+            sc.set("hold_ns", *rng.pick(&[2_000_000, 300_000_000, 5_000_000_000, 600_000_000_000]));
+            sc.set("reset_kind", rng.below(3));
+            sc.set("steps_per_ms", *rng.pick(&[1, 7, 1000]));
+            let mut ops = vec![];
+            for _ in 0..rng.range(2, 12) {
+                ops.push(Op::new("gap_ms").n(*rng.pick(&[1, 5, 100, 1000, 60_000])));
+            }
+            sc.threads = vec![ops];
             return sc;
         }
         match rng.weighted(&[6, 2, 2]) {
@@ -864,7 +967,7 @@ impl Check for C09 {
                 sc.set("sync_gap", log_uniform(rng, 1e6, 1e11));
                 sc.set("after_sync_gap", *rng.pick(&[0, 1, 1_000_000, 5_000_000_000]));
                 sc.set("forget", rng.below(3));
-                sc.set("seek_via", (sc.c("forget") == 2 && rng.chance(1, 3)) as u64);
+                sc.set("seek_via", if sc.c("forget") == 2 { rng.weighted(&[3, 2, 2, 2]) as u64 } else { 0 });
                 sc.set("sync_kind", rng.below(3));
                 let mut post = vec![];
                 let mut pos = if sc.c("forget") == 0 { sc.c("sync_pos") } else { 0 };
@@ -883,6 +986,7 @@ impl Check for C09 {
             "steady" => exec_steady(sc),
             "twins" => exec_twins(sc),
             "ticked" => exec_ticked(sc),
+            "blocked" => exec_blocked(sc),
             _ => exec_laws(sc),
         }
     }
